@@ -273,3 +273,33 @@ TRUSTED = TRUSTED + [
     "translator tie for the reader: harness/translate_tzif.py (TzifPy) re-translates tzfile._read_tzfile from /repo on every run into Generated/TzifKernels.lean (Gen.readTzfile and one definition per `for` statement); the driver op tzif.read runs it on every stream of the correspondence against the implementation; Properties/TzifGen.lean lists the obligations gen_eq_model_read_tzfile* that prove it equal to Model/TZif.lean's decode/build",
     "named primitives of the TzifPy translator (Model/TzifPy.lean), trusted with their documented meaning and exercised by tzif.read on every run: a BytesIO-like stream (short reads, relative seek clamped at 0), struct.unpack for the formats >Nl >NB >Nb >lbB with struct.error as one kind, bytes.decode() on ASCII, the compound `s[i:s.find('\\x00', i)]` as one primitive (TZ.abbrAt), `_ttinfo` objects as references into a heap in allocation order (aliasing through trans_idx / ttinfo_list / ttinfo_std/dst/before is explicit), `_get_supported_offset` as the identity (its definition for Python >= 3.6 is checked to be `return second_offset`), timedelta as whole seconds, a name bound on one path only defaults to the empty list (UnboundLocalError not modelled)",
 ]
+
+
+# --- HISTORY of the process and shared state (wt-tzfile): a file rewritten under the same path / name must be reported as it
+# is NOW by every load kind (harness/props/c06_history.py: 14 load kinds x overwrite/replace x same/later mtime), and the TZif
+# classes must hold no class- or module-level mutable state (AST audit against an allow-list of the sites of the unchanged tree)
+_oracle_without_history = oracle
+_replay_without_history = replay
+
+
+def oracle(ctx):
+    _oracle_without_history(ctx)
+    from props import c06_history as HIST
+    HIST.history(ctx)
+    HIST.shared_state_audit(ctx)
+
+
+def replay(ctx, payload):
+    c = payload["violation"]["case"]
+    if isinstance(c, dict) and ("kind" in c or "site" in c):
+        from props import c06_history as HIST
+        return HIST.replay_history(c)
+    return _replay_without_history(ctx, payload)
+
+
+ASSUMPTIONS = ASSUMPTIONS + [
+    "by design and not asserted by the history stream: gettz(name) / gettz(path) return the cached object while the key is in gettz's strong LRU cache or the earlier object is still alive in the weak instance map (C18); zoneinfo.get_zonefile_instance() keeps one ZoneInfoFile per process; unpickled and copied zones carry their decoded state (asserted to report the ORIGINAL object's data)",
+]
+RULE = RULE + ("; history stream: sequences of 2-3 different well-formed TZif byte strings (same length / same instants with different offsets, abbreviations, "
+               "isdst, type indices, flags; real pairs; random tables) written to the SAME path or name, rewritten in place or by os.replace with the mtime restored or advanced, "
+               "loaded through 14 load kinds; a case = (sequence, load kind, step); audit: one case per audited site (not counted as non-trivial)")
